@@ -450,6 +450,33 @@ def ctor_wiring(p: Project, ci, attr: str):
         if isinstance(n, ast.NamedExpr) and isinstance(n.target, ast.Name):
             writes.setdefault(n.target.id, []).append(None)
 
+    # attributes set by the base-class constructor: `super().__init__(a, b, k=c)` bound against the base signature, base body `self.X = <its parameter>`
+    inherited = {}
+    for st in order[:call_idx]:
+        c = st.value if isinstance(st, ast.Expr) else None
+        if isinstance(c, ast.Call) and isinstance(c.func, ast.Attribute) and c.func.attr == '__init__' and isinstance(c.func.value, ast.Call) \
+                and isinstance(c.func.value.func, ast.Name) and c.func.value.func.id == 'super':
+            for b in p.mro(ci.key)[1:]:
+                bf = b.methods.get('__init__')
+                if bf is None:
+                    continue
+                bsig = [a.arg for a in bf.node.args.args if a.arg != 'self']
+                actual = {}
+                for i, a in enumerate(c.args):
+                    if i < len(bsig):
+                        actual[bsig[i]] = a
+                for k in c.keywords:
+                    if k.arg:
+                        actual[k.arg] = k.value
+                bw = {}
+                for n in ast.walk(bf.node):
+                    if isinstance(n, ast.Assign) and len(n.targets) == 1 and self_attr(n.targets[0]):
+                        bw.setdefault(self_attr(n.targets[0]), []).append(n.value)
+                for a_, vs in bw.items():
+                    if len(vs) == 1 and isinstance(vs[0], ast.Name) and vs[0].id in actual:
+                        inherited[f'self.{a_}'] = actual[vs[0].id]
+                break
+
     def resolve(e, depth=0):
         """the constructor parameter (or constant) this expression is on EVERY path to the call, or None"""
         t = ast.unparse(e)
@@ -458,6 +485,8 @@ def ctor_wiring(p: Project, ci, attr: str):
         name = e.id if isinstance(e, ast.Name) else (t if self_attr(e) else None)
         if name is not None:
             ws = writes.get(name, [])
+            if not ws and name in inherited:
+                return resolve(inherited[name], depth + 1)
             if not ws:
                 return name if name in params else None
             if name in params:
